@@ -50,6 +50,7 @@ class Case(object):
     loops = {}               # ordinal string -> LoopSpec
     locals = {}              # local name -> T, for locals initialised with an empty literal
     hooks = ()               # ghost hooks (Hook)
+    field_types = {}         # attribute name -> T, for fields initialised with None / an empty literal
     inline = ()              # qualified names of small straight-line repo helpers executed in place
     ghost = None             # ghost(c) -> {name: V}: ghost variables at function entry
     status = 'verified'      # 'verified' | 'assumed' (external / out of reach) | 'bounded'
